@@ -108,6 +108,9 @@ def _copy_dictionaries(value: Any) -> Any:
     """Recursively copy the mapping but only create copies of the dictionaries not the values."""
     if isinstance(value, dict):
         return {key: _copy_dictionaries(subvalue) for key, subvalue in value.items()}
+    if isinstance(value, utils.Frozendict):
+        # An immutable mapping (e.g. the inputs of another process) can hold plain dictionaries of the caller further down
+        return type(value)({key: _copy_dictionaries(subvalue) for key, subvalue in value.items()})
     return value
 
 
